@@ -24,6 +24,7 @@ ASSUMPTIONS = {
     "A-progress": "eventual guarantees of the manager thread and the workers that the polling loops rely on: every pending job is eventually resolved; workers that "
                   "were sent a sentinel or time out leave the worker table; eventually every worker still in the table is running or the pool is flagged broken "
                   "(for workers the manager thread watches, i.e. it was woken after they were registered)",
+    "A-iter": "an iterator is a finite sequence of items consumed from the front (zip(*iterables) runs over py_zip(iterables)); infinite or failing iterables are outside the claim",
     "A-monitor": "an Event's flag semaphore holds 0 or 1 whenever its condition's lock is acquired",
     "A-spawn": "queues do not send objects while a process object is being pickled for launch",
     "A-fds": "descriptors recorded in a Popen's keep list are open descriptors of this process",
@@ -283,10 +284,12 @@ PROPS["C03"] = dict(
            "future, queues the id, wakes the manager and tops the pool up, keeping the representation invariants also when a spawn fails; dispatch builds the call item "
            "from the work item of its own id, only after the future was marked running, never for a cancelled future, never when the queue is full, and records the id as "
            "running before the feeder can see the item; process_result_item resolves exactly the future of the result's id, once, with the value or exception sent, "
-           "touching no other future; the worker answers each call item exactly once with the item's own id.",
-    not_covered="at-most-once execution across worker death, respawn, resize and concurrent submitters (schedules, OS); part A (map == builtin map) is a separate set of "
-                "obligations, see the evidence of this run.",
-    assumptions=["A-atomic", "A-alias", "A-pids", "A-user"],
+           "touching no other future; the worker answers each call item exactly once with the item's own id. Part A, chunking only: the chunks yielded by "
+           "_get_chunks, concatenated, are exactly the zipped argument tuples in order, every chunk has between 1 and chunksize items and only the last may be short.",
+    not_covered="at-most-once execution across worker death, respawn, resize and concurrent submitters (schedules, OS); part A (map == builtin map): only the chunking generator _get_chunks is under "
+                "contract (chunks concatenated == zipped arguments, sizes 1..chunksize); _process_chunk, _chain_from_iterable_of_lists and map's composition are "
+                "not (their obligations are beyond the installed solvers, DESIGN.md 10.2).",
+    assumptions=["A-atomic", "A-alias", "A-pids", "A-user", "A-iter", "A-running"],
     abstractions=EXEC_ABS,
 )
 
@@ -582,3 +585,29 @@ PROPS["C10"] = dict(
     assumptions=["A-yield", "A-progress", "A-atomic", "A-pids", "A-posix"],
     abstractions=EXEC_ABS + ["interference at declared yield points (time.sleep in polling loops): the shared state named there is havocked"],
 )
+
+
+# ----------------------------------------------------------------------
+# thorough tier: bounded native cross-checks (harness, input generator, number of cases); the harness compares the REAL function with the oracle of the property
+def _gen_cpu(rng):
+    return {"os_none": rng.random() < 0.1, "os": rng.choice([0, 1, 2, 3, 4, 8, 16, 64, 128]), "have_sched": rng.random() < 0.7, "sched_raises": rng.random() < 0.2,
+            "aff": rng.choice([1, 2, 3, 4, 7, 64]), "have_psutil": rng.random() < 0.6, "psutil_has_aff": rng.random() < 0.7, "psutil_aff": rng.choice([1, 2, 5, 16]),
+            "v2": rng.random() < 0.4, "v1q": rng.random() < 0.4, "v1p": rng.random() < 0.4, "q_is_max": rng.random() < 0.2,
+            "Q": rng.choice([-1, 0, 1, 50000, 99999, 100000, 100001, 150000, 250000, 800000, 12345678]), "P": rng.choice([1, 1000, 100000, 3]),
+            "env_has": rng.random() < 0.5, "LK": rng.choice([-3, 0, 1, 2, 3, 5, 1000])}
+
+
+def _gen_depth(rng):
+    return {"method": rng.choice(["loky", "loky_init_main", "spawn", "forkserver", "fork"]), "depth": rng.choice([0, 1, 2, 3, 9, 10, 11, 100]),
+            "max_depth": rng.choice([-5, -1, 0, 1, 2, 3, 10, 11, 100])}
+
+
+def _gen_tracker(rng):
+    return {"nfields": rng.choice([1, 2, 3, 3, 3, 4, 5]), "cmd": rng.choice(["REGISTER", "UNREGISTER", "MAYBE_UNLINK", "PROBE", "BOGUS", "register"]),
+            "rtype": rng.choice(["file", "folder", "semlock", "nosuchtype"]), "name": rng.choice(["plain", "a:b", "dir:x:1", "/tmp/x", "C:\\\\d:e"]),
+            "pre_count": rng.choice([0, 0, 1, 2, 3])}
+
+
+PROPS["C17"]["native_cross_checks"] = [("cpu_count", _gen_cpu, 300)]
+PROPS["C19"]["native_cross_checks"] = [("check_max_depth", _gen_depth, 300)]
+PROPS["C11"]["native_cross_checks"] = [("tracker_step", _gen_tracker, 60)]
